@@ -601,6 +601,14 @@ class Folder:
         if k == "ImplicitValueInitExpr":
             return 0
         if k == "ArraySubscriptExpr":
+            b0 = strip(n["c"][0])
+            while b0 is not None and b0.get("k") in CASTS and b0.get("c"):
+                b0 = strip(b0["c"][0])
+            if b0 is not None and b0.get("k") == "DeclRefExpr":
+                pv0 = self.env.get(b0.get("d"))
+                if isinstance(pv0, CPtr) and pv0.off and pv0.buf and isinstance(pv0.buf[0], int):
+                    # a cursor into a buffer: indices count from the cursor, also backwards
+                    return self.load(self.lv(n))
             try:
                 return self.table_read(n)
             except NotConst:
